@@ -23,6 +23,52 @@ def replay(model, obligation):
         back = t.deserialize(b, pv)
         bad = b != exp or back != v
         return {'reproduced': bad, 'detail': '%s.serialize(%d) = %s (Cassandra: %s), decoded %r' % (hname, v, b.hex(), exp.hex(), back)}
+    if hname == 'DateType':
+        import datetime
+        epoch = datetime.datetime(1970, 1, 1)
+        fails = []
+        us = int(model.get('microseconds_since_epoch', 0) or 0)
+        cands = [us, -1, -999, -1001, 999, 1001, -62135596800 * 10 ** 6, 253402300799 * 10 ** 6 + 999999, 1500000000123456]
+        for u in cands:
+            try:
+                dt = epoch + datetime.timedelta(microseconds=u)
+            except OverflowError:
+                continue
+            want = u // 1000 if u >= 0 else -(-u // 1000)
+            got = marshal.int64_unpack(cqltypes.DateType.serialize(dt, pv))
+            if got != want:
+                fails.append('serialize(%s) encodes %d ms, the instant is %d ms' % (dt.isoformat(), got, want))
+        for d in [int(model.get('days_since_epoch', 0) or 0), -719162, -1, 0, 1, 2932896]:
+            try:
+                day = datetime.date(1970, 1, 1) + datetime.timedelta(days=d)
+            except OverflowError:
+                continue
+            got = marshal.int64_unpack(cqltypes.DateType.serialize(day, pv))
+            if got != d * 86400000:
+                fails.append('serialize(%s) encodes %d ms, midnight UTC is %d ms' % (day.isoformat(), got, d * 86400000))
+        for v in [int(model.get('value', 0) or 0), -(1 << 63), (1 << 63) - 1, 1 << 63, -(1 << 63) - 1]:
+            inr = -(1 << 63) <= v < (1 << 63)
+            try:
+                b = cqltypes.DateType.serialize(v, pv)
+                if not inr or b != cser.be_signed(v, 8):
+                    fails.append('serialize(%d) gave %s' % (v, b.hex()))
+            except struct.error:
+                if inr:
+                    fails.append('serialize(%d) raised' % v)
+        for ms in [int(model.get('milliseconds', 0) or 0), -1, 1, -62135596800000, 253402300799999, 1500000000123]:
+            try:
+                want = epoch + datetime.timedelta(milliseconds=ms)
+            except OverflowError:
+                want = None
+            try:
+                dt = cqltypes.DateType.deserialize(marshal.int64_pack(ms), pv)
+            except OverflowError:
+                dt = None
+            if dt != want:
+                fails.append('deserialize(%d ms) gave %r, the instant is %r' % (ms, dt, want))
+            elif dt is not None and cqltypes.DateType.serialize(dt, pv) != marshal.int64_pack(ms):
+                fails.append('%d ms does not survive deserialize/serialize' % ms)
+        return {'reproduced': bool(fails), 'detail': '; '.join(fails[:3]) or 'DateType agrees on the model value and the boundary instants'}
     if hname == 'SimpleDateType':
         d = int(model.get('days', 0))
         inr = -(1 << 31) <= d < (1 << 31)
